@@ -265,6 +265,66 @@ impl Ctx<'_> {
         }
     }
 
+    /// the same (or a different) value seen through two differently typed parameters: the static types of the
+    /// operands must not influence the answer
+    fn static_views(&mut self, cfg: &Cfg) {
+        // (value text, content id, views that admit it)
+        let vals: Vec<(&str, u32, Vec<&str>)> = vec![
+            ("struct{a := 1}", 1, vec!["struct{a: int}", "struct{a: int|float}", "struct{a: any}", "struct{}", "any", "struct{a: int}|int"]),
+            ("struct{a := 2}", 2, vec!["struct{a: int}", "struct{a: int|float}", "struct{a: any}", "struct{}", "any"]),
+            ("struct{a := 1, b := \"s\"}", 3, vec!["struct{a: int, b: string}", "struct{a: int}", "struct{b: string}", "struct{a: int|float, b: any}", "struct{}", "any"]),
+            ("struct{a := 1, b := \"t\"}", 4, vec!["struct{a: int, b: string}", "struct{a: int}", "struct{}", "any"]),
+            ("struct{}", 5, vec!["struct{}", "any"]),
+            ("[1, 2]", 6, vec!["[int]", "[int|float]", "[any]", "any", "[int]|string"]),
+            ("[1, 3]", 7, vec!["[int]", "[int|float]", "[any]", "any"]),
+            ("[]", 8, vec!["[int]", "[string]", "[any]", "[]", "any", "[int|float]"]),
+            ("(1, \"s\")", 9, vec!["(int, string)", "(int|float, string)", "(any, any)", "any", "(int, string)|int"]),
+            ("(1, \"t\")", 10, vec!["(int, string)", "(int|float, string)", "(any, any)", "any"]),
+            ("1", 11, vec!["int", "int|string", "int|float", "any"]),
+            ("2", 12, vec!["int", "int|string", "any"]),
+            ("\"s\"", 13, vec!["string", "int|string", "any"]),
+            ("1.0", 14, vec!["float", "int|float", "any"]),
+            ("()", 15, vec!["()", "int|()", "any"]),
+            ("true", 16, vec!["bool", "bool|int", "any"]),
+            ("[struct{a := 1}]", 17, vec!["[struct{a: int}]", "[struct{a: int|float}]", "[struct{}]", "[any]", "any"]),
+            ("(struct{a := 1}, 2)", 18, vec!["(struct{a: int}, int)", "(struct{a: any}, int)", "(struct{}, any)", "any"]),
+        ];
+        let mut cell = 0u64;
+        for (va, ia, viewsa) in &vals {
+            for (vb, ib, viewsb) in &vals {
+                for ta in viewsa {
+                    for tb in viewsb {
+                        cell += 1;
+                        if !cfg.owns(cell) {
+                            continue;
+                        }
+                        let expected = ia == ib;
+                        let src = format!(
+                            "f := (x: {ta}, y: {tb}) -> (bool, bool, bool, bool) {{ m := match x {{ y => true, => false, }}; return (x == y, y == x, x != y, m) }}; f({va}, {vb})"
+                        );
+                        self.rep.evaluations += 1;
+                        self.rep.count("static-view-pairs");
+                        self.rep.distinct_case(&src);
+                        match eval_bools(&src) {
+                            Ok(v) if v.len() == 4 => {
+                                for (op, got, want) in [("==", v[0], expected), ("==(sym)", v[1], expected), ("!=", v[2], !expected), ("match-value-arm", v[3], expected)] {
+                                    if got != want {
+                                        let kind = va.split(|c: char| !c.is_alphanumeric()).next().unwrap_or("");
+                                        let key = format!("c19:static-view:{op}:{}:expected-{want}", if kind.is_empty() { &va[..1] } else { kind });
+                                        self.rep.violation(&key, &format!("{op} gave {got}, expected {want}: {va} seen as {ta} vs {vb} seen as {tb} :: {src}"), "c19", &src);
+                                    }
+                                }
+                            }
+                            Ok(v) => self.rep.violation("c19:static-view:arity", &format!("{src}: {v:?}"), "c19", &src),
+                            Err(why) if why.starts_with("rejected") => self.rep.count("static-view-rejected"),
+                            Err(why) => self.rep.violation(&format!("c19:static-view:eval:{}", truncate(&why, 60)), &format!("{src}: {why}"), "c19", &src),
+                        }
+                    }
+                }
+            }
+        }
+    }
+
     /// host-built arrays with every stored element type, compared in-language through a parsed function
     fn host_built(&mut self) {
         let interp = Interpreter::with_stdlib();
@@ -316,6 +376,7 @@ pub fn run(cfg: &Cfg, rep: &mut Report) {
     if cfg.shard == 1 % cfg.nshards {
         ctx.host_built();
     }
+    ctx.static_views(cfg);
     let cs = contents();
     let wraps: &[&str] = if cfg.thorough() { &["plain", "tuple", "struct", "nested"] } else { &["plain", "tuple"] };
     let mut cell = 0u64;
